@@ -15,7 +15,9 @@ func (b *Buf) Write(p []byte) (int, error) {
 }
 
 // SplitReader serves Data with a chosen splitting: Mode 0 = as much as asked,
-// 1 = one byte per Read, 2 = a single cut at Cut.
+// 1 = one byte per Read, 2 = a single cut at Cut, 3 = as much as asked, and the
+// read that delivers the last byte returns io.EOF along with the data (as
+// io.Reader permits and HTTP bodies do).
 type SplitReader struct {
 	Data  []byte
 	Pos   int
@@ -46,12 +48,15 @@ func (r *SplitReader) Read(p []byte) (int, error) {
 	}
 	copy(p, r.Data[r.Pos:r.Pos+n])
 	r.Pos += n
+	if r.Mode == 3 && r.Pos == len(r.Data) {
+		return n, io.EOF
+	}
 	return n, nil
 }
 
 // ChooseSplit picks a splitting mode (and cut position) for data of length n.
 func ChooseSplit(n int) (mode, cut int) {
-	mode = Choose("split.mode", 3)
+	mode = Choose("split.mode", 4)
 	if mode == 2 {
 		if n < 2 {
 			Assume(false)
